@@ -245,7 +245,8 @@ impl<M: Math> AdaptStrategy<M> for ExternalTransformAdaptation {
                 )?;
             }
             self.step_size.update_estimator_early();
-            self.step_size.update_stepsize(rng, hamiltonian, false);
+            let is_last = draw == self.num_tune - 1;
+            self.step_size.update_stepsize(rng, hamiltonian, is_last);
             #[cfg(nuts_rs_verif)]
             verif_adapt!("mass", "early");
             return Ok(());
